@@ -211,8 +211,9 @@ def monC08 (g : Ghost) (o : Obs) : List String :=
     let want := (alookup k g.hitsSince).getD 0
     if e.hits = want then none else some s!"hit counter of {k} is {e.hits}, {want} successful lookups since its store")
   let h := if g.started then h else []
-  let v := match o.op with
-    | .insert k _ =>
+  -- single-victim stores: entry-limit eviction of `insert`, and a memory-aware store that removed exactly one
+  -- other entry (memory loop or limit step); several victims are left to the correspondence
+  let check (k : String) : List String :=
       let isAsync := o.cfg.flavour = .async
       -- candidates at eviction time, in recency order (front = least recent), with hits and age
       let q0 := if isAsync then o.pre.queue.filter (fun x => x ≠ k) else o.pre.queue.erase k ++ [k]
@@ -237,7 +238,11 @@ def monC08 (g : Ghost) (o : Obs) : List String :=
             if bad.isEmpty then [] else
               [s!"{if pol = .arc then "ARC" else "TLRU"} evicted {r} (score {sc r}) although {bad.map (fun x => s!"{x}:{sc x}")} score lower"]
       | _ => []
-    | _ => []
+  let v := match o.op, o.cfg.maxMem with
+    | .insert k _, _ => check k
+    | .insertMem k val, some M => if val.size > M then [] else check k
+    | .insertMem k _, none => check k
+    | _, _ => []
   h ++ v
 
 /-! C15 (engine level): every lookup bumps exactly one of the two counters — hits iff it returned a
